@@ -86,6 +86,15 @@ func vDumpLoad(mutateAfterDump bool, intoReset bool) {
 		vcheck("same-future-handles", same)
 		vcheck("inv-after-creations", vpure(func() bool { return invWorld(w2) }))
 	}
+	// handles that were dead at dump time are dead handles in the loaded world: operations on them are rejected
+	for i := 0; i < nAtDump; i++ {
+		if !aliveAtDump[i] && !w2.Alive(s.h[i]) {
+			before := w2.storage.entityPool.Len()
+			vcheck("remove-of-dead-handle-rejected-after-load", vpanics(func() { w2.RemoveEntity(s.h[i]) }))
+			vcheck("rejected-remove-has-no-effect", w2.storage.entityPool.Len() == before && vpure(func() bool { return invWorld(w2) }))
+			break
+		}
+	}
 	// loading into a world that is not fresh is rejected
 	vcheck("second-load-rejected", nAtDump == 0 || vpanics(func() { w2.Unsafe().LoadEntities(&d) }))
 	vreach("end")
